@@ -485,3 +485,92 @@ def props_receiver_hook(E, res):
                 v = alloc_view(E, val)
                 P.append(('allocations belong to the sender of the tokens', v['client'] == env['frm']))
     return P
+
+
+# ---- remove_verified_client_data_cap: datacap removal by the root with two verifier signatures ---------------------------------
+# CUT (declared): remove_data_cap_request_is_valid (signature verification over the serialized proposal) -> arbitrary verdict,
+# its arguments recorded.
+
+def run_remove_datacap(E):
+    rt, rtref = new_rt(E)
+    rt.state = LazyV('st', 'State')
+    SF = Fields('actors/verifreg/src/state.rs', 'State')
+    env = E.ctx.env
+    env['vbase'] = 'map(st.%d)' % SF['verifiers']
+    env['pbase'] = 'map(st.%d)' % SF['remove_data_cap_proposal_ids']
+    checks = env.setdefault('sig_checks', [])
+
+    def cut_valid(E2, c):
+        b = E2.ctx.fresh_bool('signature_valid')
+        checks.append(dict(ok=b, req=E2.deref(c.args[1]), id=E2.deref(c.args[2]), amount=big(E2, c.args[3]), client=E2.deref(c.args[4])))
+        if E2.ctx.branch(b):
+            return ok(UNIT, c.dest_ty)
+        return err(models_fvm.actor_error(E2, 16), c.dest_ty)
+    E.cuts['remove_data_cap_request_is_valid'] = cut_valid
+
+    def hook(E2, m, kt, val):
+        if m.base == env['pbase']:
+            v = fget(E2, val, 0, 'u64') if not isinstance(val, IntV) else val
+            E2.ctx.assume(z3.And(v.v >= 0, v.v < 2**62))        # environment contract: proposal counters far from u64::MAX
+        return None
+    env['map_value_hook'] = hook
+    params = LazyV('params', 'types::RemoveDataCapParams')
+    env['params'] = params
+    fn = find_fn(E, VR, 'remove_verified_client_data_cap')
+    return E.run_function(fn, [rtref, params]), rt
+
+
+def props_remove_datacap(E, res):
+    env = res.ctx.env
+    rt = env['rt']
+    ctx = res.ctx
+    if res.kind != 'return':
+        return [('no panic (%s)' % str(res.info)[:60], False)]
+    if is_err(res.value):
+        return []
+    SF = Fields('actors/verifreg/src/state.rs', 'State')
+    RP = Fields('actors/verifreg/src/types.rs', 'RemoveDataCapParams')
+    RR = Fields('actors/verifreg/src/types.rs', 'RemoveDataCapRequest')
+    root = fget(E, rt.state, SF['root_key'], ADDR)
+    checks = env.get('sig_checks', [])
+    P = [('only the root key holder removes datacap', addr_eq(rt.caller, root)),
+         ('both verifier signatures were checked and valid', z3.And(*[c['ok'] for c in checks]) if len(checks) == 2 else z3.BoolVal(False))]
+    want = big(E, fget(E, env['params'], RP['data_cap_amount_to_remove'], 'BigInt'))
+    if len(checks) == 2:
+        a, b = checks
+        P.append(('the two approvals come from two different verifiers', b_not(addr_eq(fget(E, a['req'], RR['verifier'], ADDR), fget(E, b['req'], RR['verifier'], ADDR)))))
+        P.append(('both signatures are checked against the requested amount and the same client', b_and(a['amount'] == want, b['amount'] == want, addr_eq(a['client'], b['client']))))
+        # each verifier's proposal id for this client is consumed: the stored counter advances by one
+        pm = heap_get(E, fget(E, rt.state, SF['remove_data_cap_proposal_ids'], CID))
+        P.append(('the proposal counters are written', isinstance(pm, MapM)))
+        if isinstance(pm, MapM):
+            writes = [(k, val) for (k, pres, val, _) in pm.over if pres]
+            P.append(('exactly the two (verifier, client) proposal counters advance', len(writes) == 2))
+            if len(writes) == 2:
+                P.append(('the two counters belong to the two different verifiers (each approval uses up its own proposal id)', b_not(key_eq(writes[0][0], writes[1][0]))))
+            for c_, (k, val) in zip(checks, writes):
+                idv = fget(E, c_['id'], 0, 'u64').v if not isinstance(c_['id'], IntV) else c_['id'].v
+                newv = E.deref(val)
+                nv = fget(E, newv, 0, 'u64').v if not isinstance(newv, IntV) else newv.v
+                P.append(('a signature is checked against the current proposal id, which is then used up (a signed removal cannot be replayed)', nv == idv + 1))
+    # the datacap actor is asked for the balance, then exactly min(balance, amount) is destroyed from the client
+    dsends = [s for s in rt.sends if implied(ctx, b_and(s.to.proto == 0, s.to.key == DATACAP))]
+    P.append(('all sends go to the datacap actor and succeed', len(dsends) == len(rt.sends) and all(s.ok is True for s in rt.sends)))
+    ret = E.deref(res.value.fields[('Ok', 0)])
+    RT_ = Fields('actors/verifreg/src/types.rs', 'RemoveDataCapReturn')
+    removed = big(E, fget(E, ret, RT_['data_cap_removed'], 'BigInt'))
+    P.append(('never more than requested is removed', z3.And(removed <= want, z3.Implies(want >= 0, removed <= want))))
+    # first the balance query (read-only), then at most one Destroy (none when nothing is left to remove)
+    P.append(('the client balance is queried first, read-only and without value', len(dsends) >= 1 and all(implied(ctx, s.value == 0) for s in dsends)))
+    destroys = dsends[1:]
+    P.append(('at most one Destroy on the datacap actor', len(destroys) <= 1))
+    if not destroys:
+        P.append(('nothing is destroyed only when nothing is removed', removed == 0))
+    for s in destroys:
+        obj = E.deref(s.params.obj) if isinstance(s.params, BlockV) and s.params.obj is not None else None
+        if obj is None:
+            P.append(('the Destroy carries typed params', False))
+            continue
+        P.append(('the amount destroyed is the amount reported as removed (in token units of 10^18), taken from the named client',
+                  b_and(big(E, fget(E, obj, 1, 'BigInt')) == removed * 10**18, addr_eq(fget(E, obj, 0, ADDR), fget(E, ret, RT_['verified_client'], ADDR)))))
+    return P
